@@ -173,7 +173,7 @@ class Contract:
     """A group of cases for one real function."""
 
     def __init__(self, target, properties, cases, models=None, inline_ok=None, loop_specs=None,
-                 pow_fn=None, trusted=(), note="", axioms=None, interpret_always=(), expect_min_paths=1):
+                 pow_fn=None, trusted=(), note="", axioms=None, interpret_always=(), expect_min_paths=1, total_arith=False):
         self.target = target
         self.properties = tuple(properties)
         self.cases = list(cases)
@@ -185,6 +185,7 @@ class Contract:
         self.note = note
         self.axioms = axioms  # callable() -> list of z3 axioms
         self.interpret_always = interpret_always
+        self.total_arith = total_arith
         for c in self.cases:
             c.target = c.target or target
             if not c.properties:
@@ -328,7 +329,8 @@ def run_path(contract, case, prefix, models):
     cx = CaseCtx(path)
     from . import library
     interp = Interp(path, models, inline_ok=contract.inline_ok, loop_specs=contract.loop_specs,
-                    pow_fn=contract.pow_fn or library.pow_model, interpret_always=contract.interpret_always)
+                    pow_fn=contract.pow_fn or library.pow_model, interpret_always=contract.interpret_always,
+                    total_arith=contract.total_arith)
     cx.interp = interp
     outcome = None
     try:
